@@ -215,6 +215,13 @@ fn c01(a: &Args) -> Report {
         t.depth = s.depth - 1;
         specs.push(t);
     }
+    {
+        let mut t = s.clone();
+        t.name = "C01/placement/alt-config-2".into();
+        t.depth = s.depth - 1;
+        alt_config2(&mut t);
+        specs.push(t);
+    }
     // filter groups: with small group sizes the merged bloom / range filters of groups of closed
     // blobs decide which blobs a lookup visits; three ordered keys so that a blob can extend a
     // group's key range on either side or on both
@@ -359,6 +366,15 @@ fn alt_config(s: &mut SeqSpec) {
     s.io_mode = IoMode::Background;
 }
 
+/// A third configuration corner: 33-byte keys, no bloom filter, filter groups of three, data
+/// validated whenever an index is regenerated.
+fn alt_config2(s: &mut SeqSpec) {
+    s.key_len = 33;
+    s.wcfg.bloom = BloomCfg::None;
+    s.wcfg.group_size = 3;
+    s.wcfg.validate_data = true;
+}
+
 fn lifecycle_alphabet() -> Vec<Op> {
     vec![
         Op::TryClose,
@@ -390,6 +406,13 @@ fn c04(a: &Args) -> Report {
     s.io_mode = IoMode::Background;
     s.depth -= 1;
     specs.push(s);
+    {
+        let mut t = specs[0].clone();
+        t.name = "C04/seq/alt-config-2".into();
+        t.depth -= 1;
+        alt_config2(&mut t);
+        specs.push(t);
+    }
     // from a reopened storage: two closed blobs whose indexes and filters were read from their
     // index files, the third blob re-activated; 70-bit bloom filter
     let mut s = specs[0].clone();
@@ -690,6 +713,10 @@ fn c15(a: &Args) -> Report {
             s.name = "C15/seq/alt-config".into();
             s.depth = if thorough { 5 } else { 4 };
             alt_config(&mut s);
+            specs.push(s.clone());
+            s.name = "C15/seq/alt-config-2".into();
+            s.io_mode = IoMode::Inplace;
+            alt_config2(&mut s);
             specs.push(s);
         }
     }
